@@ -138,9 +138,259 @@ theorem rotate_local_L (h : Heap) (pn n : Nat) (a b c : BT) (g : Option Nat)
   obtain ⟨-, -, -, hrn, hrc⟩ := hrep
   have hn := hrn.cell
   obtain ⟨-, -, -, hra, hrb⟩ := hrn
-  simp only [rootId] at hpn
+  have hrt : (BT.node n a b).rootId = some n := rfl
+  rw [hrt] at hpn
   simp only [ids, List.nodup_append, List.nodup_cons, List.mem_cons, List.mem_append] at hnd hg
-  trace_state
-  sorry
+  obtain ⟨⟨hnda, ⟨hnb, hndb⟩, hab⟩, ⟨hpc, hndc⟩, hx⟩ := hnd
+  have hna : n ∉ a.ids := fun hm => hab n hm n (Or.inl rfl) rfl
+  have hnpn : n ≠ pn := hx n (Or.inr (Or.inl rfl)) pn (Or.inl rfl)
+  have hnc : n ∉ c.ids := fun hm => hx n (.inr (.inl rfl)) n (.inr hm) rfl
+  have hpa : pn ∉ a.ids := fun hm => hx pn (.inl hm) pn (.inl rfl) rfl
+  have hpb : pn ∉ b.ids := fun hm => hx pn (.inr (.inr hm)) pn (.inl rfl) rfl
+  have hdab : ∀ x, x ∈ a.ids → x ∉ b.ids := fun x h1 h2 => hab x h1 x (.inr h2) rfl
+  have hdac : ∀ x, x ∈ a.ids → x ∉ c.ids := fun x h1 h2 => hx x (.inl h1) x (.inr h2) rfl
+  have hdbc : ∀ x, x ∈ b.ids → x ∉ c.ids := fun x h1 h2 => hx x (.inr (.inr h1)) x (.inr h2) rfl
+  have hb1 : b.rootId ≠ some n := fun e => hnb (BT.rootId_mem e)
+  have hb2 : b.rootId ≠ some pn := fun e => hpb (BT.rootId_mem e)
+  have hg1 : g ≠ some n := fun e => hg n e (.inl (.inr (.inl rfl)))
+  have hg2 : g ≠ some pn := fun e => hg pn e (.inr (.inl rfl))
+  have hgb : ∀ x, g = some x → b.rootId ≠ some x :=
+    fun x e e' => hg x e (.inl (.inr (.inr (BT.rootId_mem e'))))
+  have hE := Heap.rotate_left_explicit h n pn a.rootId b.rootId c.rootId g hn hpn hnpn hb1 hb2 hg1 hg2 hgb
+  have e_n : h.rotate n n = ⟨a.rootId, some pn, g⟩ := by rw [hE]; simp
+  have e_pn : h.rotate n pn = ⟨b.rootId, c.rootId, some n⟩ := by rw [hE]; simp [hnpn.symm]
+  have e_o : ∀ x, x ≠ n → x ≠ pn → some x ≠ b.rootId → some x ≠ g → h.rotate n x = h x := by
+    intro x h1 h2 h3 h4; rw [hE]; simp [h1, h2, h3, h4]
+  have e_b : ∀ x, b.rootId = some x → h.rotate n x = { h x with parent := some pn } := by
+    intro x e
+    have h1 : x ≠ n := fun e' => hb1 (e' ▸ e)
+    have h2 : x ≠ pn := fun e' => hb2 (e' ▸ e)
+    rw [hE]; simp [h1, h2, e]
+  have e_g : ∀ x, g = some x → h.rotate n x =
+      if (h x).left = some pn then { h x with left := some n } else { h x with right := some n } := by
+    intro x e
+    have h1 : x ≠ n := fun e' => hg1 (e' ▸ e)
+    have h2 : x ≠ pn := fun e' => hg2 (e' ▸ e)
+    have h3 : some x ≠ b.rootId := fun e' => hgb x e e'.symm
+    rw [hE]; simp [h1, h2, h3, e]
+  refine ⟨⟨by rw [e_n], by rw [e_n]; rfl, by rw [e_n], ?_, ⟨by rw [e_pn], by rw [e_pn], by rw [e_pn], ?_, ?_⟩⟩, ?_, e_g⟩
+  · refine hra.frame (fun x hxa => e_o x ?_ ?_ ?_ ?_)
+    · rintro rfl; exact hna hxa
+    · rintro rfl; exact hpa hxa
+    · intro e; exact hdab x hxa (BT.rootId_mem e.symm)
+    · intro e; exact hg x e.symm (.inl (.inl hxa))
+  · refine hrb.reparent hndb (fun x hxb hne => e_o x ?_ ?_ hne ?_) e_b
+    · rintro rfl; exact hnb hxb
+    · rintro rfl; exact hpb hxb
+    · intro e; exact hg x e.symm (.inl (.inr (.inr hxb)))
+  · refine hrc.frame (fun x hxc => e_o x ?_ ?_ ?_ ?_)
+    · rintro rfl; exact hnc hxc
+    · rintro rfl; exact hpc hxc
+    · intro e; exact hdbc x (BT.rootId_mem e.symm) hxc
+    · intro e; exact hg x e.symm (.inr (.inr hxc))
+  · intro x hxn hxg
+    simp only [ids, List.mem_cons, List.mem_append, not_or] at hxn
+    exact e_o x hxn.1.2.1 hxn.2.1 (fun e => hxn.1.2.2 (BT.rootId_mem e.symm)) hxg
+
+theorem rotate_local_R (h : Heap) (pn n : Nat) (a b c : BT) (g : Option Nat)
+    (hrep : Rep h (.node pn a (.node n b c)) g) (hnd : (BT.node pn a (.node n b c)).ids.Nodup)
+    (hg : ∀ x, g = some x → x ∉ (BT.node pn a (.node n b c)).ids) :
+    Rep (h.rotate n) (.node n (.node pn a b) c) g ∧
+    (∀ x, x ∉ (BT.node pn a (.node n b c)).ids → some x ≠ g → h.rotate n x = h x) ∧
+    (∀ x, g = some x → h.rotate n x =
+      if (h x).left = some pn then { h x with left := some n } else { h x with right := some n }) := by
+  have hpn := hrep.cell
+  obtain ⟨-, -, -, hra, hrn⟩ := hrep
+  have hn := hrn.cell
+  obtain ⟨-, -, -, hrb, hrc⟩ := hrn
+  have hrt : (BT.node n b c).rootId = some n := rfl
+  rw [hrt] at hpn
+  simp only [ids, List.nodup_append, List.nodup_cons, List.mem_cons, List.mem_append] at hnd hg
+  obtain ⟨hnda, ⟨hpx, hndb, ⟨hnc, hndc⟩, hbc⟩, hx⟩ := hnd
+  simp only [not_or] at hpx
+  obtain ⟨hpb, hpnn, hpc⟩ := hpx
+  have hnpn : n ≠ pn := fun e => hpnn e.symm
+  have hna : n ∉ a.ids := fun hm => hx n hm n (.inr (.inr (.inl rfl))) rfl
+  have hnb : n ∉ b.ids := fun hm => hbc n hm n (.inl rfl) rfl
+  have hpa : pn ∉ a.ids := fun hm => hx pn hm pn (.inl rfl) rfl
+  have hdab : ∀ x, x ∈ a.ids → x ∉ b.ids := fun x h1 h2 => hx x h1 x (.inr (.inl h2)) rfl
+  have hdac : ∀ x, x ∈ a.ids → x ∉ c.ids := fun x h1 h2 => hx x h1 x (.inr (.inr (.inr h2))) rfl
+  have hdbc : ∀ x, x ∈ b.ids → x ∉ c.ids := fun x h1 h2 => hbc x h1 x (.inr h2) rfl
+  have ha : a.rootId ≠ some n := fun e => hna (BT.rootId_mem e)
+  have hb1 : b.rootId ≠ some n := fun e => hnb (BT.rootId_mem e)
+  have hb2 : b.rootId ≠ some pn := fun e => hpb (BT.rootId_mem e)
+  have hg1 : g ≠ some n := fun e => hg n e (.inr (.inr (.inr (.inl rfl))))
+  have hg2 : g ≠ some pn := fun e => hg pn e (.inr (.inl rfl))
+  have hgb : ∀ x, g = some x → b.rootId ≠ some x :=
+    fun x e e' => hg x e (.inr (.inr (.inl (BT.rootId_mem e'))))
+  have hE := Heap.rotate_right_explicit h n pn a.rootId b.rootId c.rootId g hn hpn ha hnpn hb1 hb2 hg1 hg2 hgb
+  have e_n : h.rotate n n = ⟨some pn, c.rootId, g⟩ := by rw [hE]; simp
+  have e_pn : h.rotate n pn = ⟨a.rootId, b.rootId, some n⟩ := by rw [hE]; simp [hnpn.symm]
+  have e_o : ∀ x, x ≠ n → x ≠ pn → some x ≠ b.rootId → some x ≠ g → h.rotate n x = h x := by
+    intro x h1 h2 h3 h4; rw [hE]; simp [h1, h2, h3, h4]
+  have e_b : ∀ x, b.rootId = some x → h.rotate n x = { h x with parent := some pn } := by
+    intro x e
+    have h1 : x ≠ n := fun e' => hb1 (e' ▸ e)
+    have h2 : x ≠ pn := fun e' => hb2 (e' ▸ e)
+    rw [hE]; simp [h1, h2, e]
+  have e_g : ∀ x, g = some x → h.rotate n x =
+      if (h x).left = some pn then { h x with left := some n } else { h x with right := some n } := by
+    intro x e
+    have h1 : x ≠ n := fun e' => hg1 (e' ▸ e)
+    have h2 : x ≠ pn := fun e' => hg2 (e' ▸ e)
+    have h3 : some x ≠ b.rootId := fun e' => hgb x e e'.symm
+    rw [hE]; simp [h1, h2, h3, e]
+  refine ⟨⟨by rw [e_n]; rfl, by rw [e_n], by rw [e_n], ⟨by rw [e_pn], by rw [e_pn], by rw [e_pn], ?_, ?_⟩, ?_⟩, ?_, e_g⟩
+  · refine hra.frame (fun x hxa => e_o x ?_ ?_ ?_ ?_)
+    · rintro rfl; exact hna hxa
+    · rintro rfl; exact hpa hxa
+    · intro e; exact hdab x hxa (BT.rootId_mem e.symm)
+    · intro e; exact hg x e.symm (.inl hxa)
+  · refine hrb.reparent hndb (fun x hxb hne => e_o x ?_ ?_ hne ?_) e_b
+    · rintro rfl; exact hnb hxb
+    · rintro rfl; exact hpb hxb
+    · intro e; exact hg x e.symm (.inr (.inr (.inl hxb)))
+  · refine hrc.frame (fun x hxc => e_o x ?_ ?_ ?_ ?_)
+    · rintro rfl; exact hnc hxc
+    · rintro rfl; exact hpc hxc
+    · intro e; exact hdbc x (BT.rootId_mem e.symm) hxc
+    · intro e; exact hg x e.symm (.inr (.inr (.inr (.inr hxc))))
+  · intro x hxn hxg
+    simp only [ids, List.mem_cons, List.mem_append, not_or] at hxn
+    exact e_o x hxn.2.2.2.1 hxn.2.1 (fun e => hxn.2.2.1 (BT.rootId_mem e.symm)) hxg
+
+/-- the local situation for either direction -/
+theorem rotate_local (h : Heap) (t : BT) (d : Dir) (n : Nat) (g : Option Nat)
+    (hrep : Rep h t g) (hnd : t.ids.Nodup) (hg : ∀ x, g = some x → x ∉ t.ids)
+    (hn : (t.sub [d]).rootId = some n) :
+    Rep (h.rotate n) (t.rotateTop d) g ∧ (t.rotateTop d).rootId = some n ∧
+    (∀ x, x ∉ t.ids → some x ≠ g → h.rotate n x = h x) ∧
+    (∀ x, g = some x → h.rotate n x =
+      if (h x).left = t.rootId then { h x with left := some n } else { h x with right := some n }) := by
+  cases t with
+  | nil => simp [sub, rootId] at hn
+  | node pn l r =>
+    cases d with
+    | L =>
+      cases l with
+      | nil => simp [sub, rootId] at hn
+      | node n' a b =>
+        simp only [sub, rootId, Option.some.injEq] at hn
+        subst hn
+        obtain ⟨h1, h2, h3⟩ := rotate_local_L h pn n' a b r g hrep hnd hg
+        exact ⟨h1, rfl, h2, h3⟩
+    | R =>
+      cases r with
+      | nil => simp [sub, rootId] at hn
+      | node n' b c =>
+        simp only [sub, rootId, Option.some.injEq] at hn
+        subst hn
+        obtain ⟨h1, h2, h3⟩ := rotate_local_R h pn n' l b c g hrep hnd hg
+        refine ⟨?_, ?_, h2, h3⟩
+        · cases l <;> exact h1
+        · cases l <;> rfl
+
+/-! ### deeper paths -/
+
+theorem BT.rootId_rotateAt_deep (t : BT) (d d' : Dir) (q : Path) :
+    (t.rotateAt (d :: d' :: q)).rootId = t.rootId := by
+  cases t <;> cases d <;> simp [rotateAt, rootId]
+
+theorem rotate_deep (h : Heap) (n : Nat) : ∀ (p : Path) (t : BT) (par : Option Nat),
+    2 ≤ p.length → Rep h t par → t.ids.Nodup → (t.sub p).rootId = some n →
+    Rep (h.rotate n) (t.rotateAt p) par ∧ ∀ x, x ∉ t.ids → h.rotate n x = h x := by
+  intro p
+  induction p with
+  | nil => intro t par hl; simp at hl
+  | cons d q ih =>
+    intro t par hl hrep hnd hn
+    cases t with
+    | nil => simp [sub, rootId] at hn
+    | node i l r =>
+      obtain ⟨c1, c2, c3, hrl, hrr⟩ := hrep
+      have hnd' := hnd
+      simp only [ids, List.nodup_append, List.nodup_cons, List.mem_cons] at hnd'
+      obtain ⟨hndl, ⟨hir, hndr⟩, hdis⟩ := hnd'
+      have hil : i ∉ l.ids := fun hx => hdis i hx i (Or.inl rfl) rfl
+      have hlr : ∀ x, x ∈ l.ids → x ∉ r.ids := fun x h1 h2 => hdis x h1 x (Or.inr h2) rfl
+      cases q with
+      | nil => simp at hl
+      | cons d' q' =>
+        cases d with
+        | L =>
+          have hn' : (l.sub (d' :: q')).rootId = some n := by simpa [sub] using hn
+          have hrw : (BT.node i l r).rotateAt (.L :: d' :: q') = .node i (l.rotateAt (d' :: q')) r := by
+            simp [rotateAt]
+          rw [hrw]
+          cases q' with
+          | nil =>
+            obtain ⟨k1, k2, k3, k4⟩ := rotate_local h l d' n (some i) hrl hndl
+              (by rintro x ⟨rfl⟩; exact hil) hn'
+            have hi : h.rotate n i = { h i with left := some n } := by
+              rw [k4 i rfl, if_pos c1]
+            have hrot : l.rotateAt [d'] = l.rotateTop d' := by cases l <;> simp [rotateAt]
+            rw [hrot]
+            refine ⟨⟨by rw [hi, k2], by rw [hi]; exact c2, by rw [hi]; exact c3, k1, ?_⟩, ?_⟩
+            · refine hrr.frame (fun x hxr => k3 x (fun hxl => hlr x hxl hxr) ?_)
+              simp only [ne_eq, Option.some.injEq]; rintro rfl; exact hir hxr
+            · intro x hx
+              simp only [ids, List.mem_append, List.mem_cons, not_or] at hx
+              exact k3 x hx.1 (by simp only [ne_eq, Option.some.injEq]; exact hx.2.1)
+          | cons d'' q'' =>
+            obtain ⟨k1, k2⟩ := ih l (some i) (by simp) hrl hndl hn'
+            have hi : h.rotate n i = h i := k2 i hil
+            refine ⟨⟨by rw [hi, BT.rootId_rotateAt_deep]; exact c1, by rw [hi]; exact c2,
+              by rw [hi]; exact c3, k1, ?_⟩, ?_⟩
+            · exact hrr.frame (fun x hxr => k2 x (fun hxl => hlr x hxl hxr))
+            · intro x hx
+              simp only [ids, List.mem_append, List.mem_cons, not_or] at hx
+              exact k2 x hx.1
+        | R =>
+          have hn' : (r.sub (d' :: q')).rootId = some n := by simpa [sub] using hn
+          have hrw : (BT.node i l r).rotateAt (.R :: d' :: q') = .node i l (r.rotateAt (d' :: q')) := by
+            simp [rotateAt]
+          rw [hrw]
+          cases q' with
+          | nil =>
+            obtain ⟨k1, k2, k3, k4⟩ := rotate_local h r d' n (some i) hrr hndr
+              (by rintro x ⟨rfl⟩; exact hir) hn'
+            have hne : (h i).left ≠ r.rootId := by
+              rw [c1]
+              intro e
+              cases r with
+              | nil => simp [sub, rootId] at hn'
+              | node j _ _ =>
+                have : j ∈ l.ids := BT.rootId_mem e
+                exact hlr j this (by simp [ids])
+            have hi : h.rotate n i = { h i with right := some n } := by
+              rw [k4 i rfl, if_neg hne]
+            have hrot : r.rotateAt [d'] = r.rotateTop d' := by cases r <;> simp [rotateAt]
+            rw [hrot]
+            refine ⟨⟨by rw [hi]; exact c1, by rw [hi, k2], by rw [hi]; exact c3, ?_, k1⟩, ?_⟩
+            · refine hrl.frame (fun x hxl => k3 x (fun hxr => hlr x hxl hxr) ?_)
+              simp only [ne_eq, Option.some.injEq]; rintro rfl; exact hil hxl
+            · intro x hx
+              simp only [ids, List.mem_append, List.mem_cons, not_or] at hx
+              exact k3 x hx.2.2 (by simp only [ne_eq, Option.some.injEq]; exact hx.2.1)
+          | cons d'' q'' =>
+            obtain ⟨k1, k2⟩ := ih r (some i) (by simp) hrr hndr hn'
+            have hi : h.rotate n i = h i := k2 i hir
+            refine ⟨⟨by rw [hi]; exact c1, by rw [hi, BT.rootId_rotateAt_deep]; exact c2,
+              by rw [hi]; exact c3, ?_, k1⟩, ?_⟩
+            · exact hrl.frame (fun x hxl => k2 x (fun hxr => hlr x hxl hxr))
+            · intro x hx
+              simp only [ids, List.mem_append, List.mem_cons, not_or] at hx
+              exact k2 x hx.2.2
+
+theorem heap_rotate_correct (h : Heap) (t : BT) (p : Path) (n : Nat)
+    (hrep : Rep h t none) (hnd : t.ids.Nodup) (hp : p ≠ []) (hn : (t.sub p).rootId = some n) :
+    Rep (h.rotate n) (t.rotateAt p) none := by
+  match p, hp with
+  | [d], _ =>
+    have hrot : t.rotateAt [d] = t.rotateTop d := by cases t <;> simp [rotateAt]
+    rw [hrot]
+    exact (rotate_local h t d n none hrep hnd (by simp) hn).1
+  | d :: d' :: q, _ =>
+    exact (rotate_deep h n (d :: d' :: q) t none (by simp) hrep hnd hn).1
 
 end Mathy
